@@ -114,6 +114,8 @@ pub struct SeqProp {
     /// C04-style: only states reached through at least one `reopen` are judged
     pub judge_only_after_reopen: bool,
     pub filter: Option<fjall_filter::Assigner>,
+    /// C10: journal eviction oracle (records vs persisted seqno, crash image after every deletion, quiescence)
+    pub journal_oracle: bool,
 }
 
 impl SeqProp {
@@ -126,6 +128,7 @@ impl SeqProp {
             probe: Probe::Lite,
             judge_only_after_reopen: false,
             filter: None,
+            journal_oracle: false,
         }
     }
 }
@@ -145,6 +148,17 @@ impl Property for SeqProp {
             w.apply(op).map_err(|v| Violation::new("harness", format!("prefix op {op} failed: {}", v.detail)))?;
         }
         // the prefix must itself satisfy the oracle; otherwise it is reported by the pass that explores it
+        w.track_journals = self.journal_oracle;
+        if self.journal_oracle {
+            // journal bookkeeping must cover the prefix too: re-run it with tracking on
+            drop(w);
+            w = World::new_with_filter(fresh_dir_like(), self.cfg.clone(), self.filter.clone())?;
+            w.track_journals = true;
+            for op in &self.prefix {
+                w.apply(op).map_err(|v| Violation::new("harness", format!("prefix op {op} failed: {}", v.detail)))?;
+            }
+            w.journal_deletions.clear();
+        }
         w.steps = 0;
         w.wit = Witness::default();
         Ok(w)
@@ -158,11 +172,56 @@ impl Property for SeqProp {
         if w.db.is_some() && w.dbi().journal_count() < 1 {
             return Err(Violation::new("journal_count", "journal_count() < 1"));
         }
+        if self.journal_oracle && !w.journal_deletions.is_empty() {
+            let deleted = std::mem::take(&mut w.journal_deletions);
+            let remaining = journal_files(&w.dir);
+            let id = |n: &str| n.trim_end_matches(".jnl").parse::<u64>().unwrap_or(0);
+            for j in &deleted {
+                // oldest first: no surviving journal may be older than a deleted one
+                if let Some(older) = remaining.iter().find(|r| id(r) < id(j)) {
+                    return Err(Violation::new("journal.order", format!("{j} was deleted while the older {older} still exists")));
+                }
+                // every record of a live keyspace in the deleted journal must be covered by that keyspace's tables
+                for (ks, seqno) in w.journal_records.get(j).cloned().unwrap_or_default() {
+                    if let Some(h) = w.ks.get(&ks) {
+                        let persisted = h.tree.get_highest_persisted_seqno();
+                        if !persisted.is_some_and(|p| p >= seqno) {
+                            return Err(Violation::new(
+                                "journal.deleted_while_needed",
+                                format!("{j} deleted but it holds a record of keyspace {} with seqno {seqno} > persisted {persisted:?}", ksn(ks)),
+                            ));
+                        }
+                    }
+                }
+            }
+            // the guarantee users rely on: a crash right after the deletion loses nothing
+            let img = fresh_dir_like();
+            crate::crash::copy_tree(&w.dir, &img).map_err(|e| Violation::new("harness", format!("copy: {e}")))?;
+            let rec = crate::crash::recover_and_observe(&img, &w.cfg);
+            let _ = std::fs::remove_dir_all(&img);
+            match rec {
+                crate::crash::Recovered::Ok { content, inconsistent: None } => {
+                    let want = crate::crash::model_content(&w.model);
+                    if content != want {
+                        return Err(Violation::new(
+                            "journal.crash_after_delete_loses_data",
+                            format!("after deleting {deleted:?} a crash image recovers {} but the acknowledged state is {}", crate::crash::show_content(&content), crate::crash::show_content(&want)),
+                        ));
+                    }
+                }
+                crate::crash::Recovered::Ok { inconsistent: Some(d), .. } => return Err(Violation::new("journal.crash_after_delete_inconsistent", d)),
+                crate::crash::Recovered::OpenErr(e) => return Err(Violation::new("journal.crash_after_delete_open_error", e)),
+                crate::crash::Recovered::Panic(e) => return Err(Violation::new("journal.crash_after_delete_panic", e)),
+            }
+        }
         Ok(())
     }
 
     fn check(&self, w: &mut World) -> Result<Vec<u64>, Violation> {
         w.note_structure();
+        if self.journal_oracle {
+            return self.check_quiescence(w);
+        }
         if self.judge_only_after_reopen && w.wit.reopened == 0 {
             // not this property's business; still compute digests when it agrees
             return Ok(w.check_all(self.probe).unwrap_or_default());
@@ -258,6 +317,59 @@ impl Property for SeqProp {
             }
             _ => op.to_string().split_whitespace().next().unwrap_or("").to_string(),
         }
+    }
+}
+
+fn fresh_dir_like() -> PathBuf {
+    crate::explore::fresh_dir()
+}
+
+impl SeqProp {
+    /// C10: content equals the model; then flush every keyspace and drain the queue: exactly one journal remains.
+    fn check_quiescence(&self, w: &mut World) -> Result<Vec<u64>, Violation> {
+        let mut digests = w.check_all(self.probe)?;
+        let jbefore = journal_files(&w.dir).len();
+        let kss: Vec<u8> = w.ks.keys().copied().collect();
+        // "once all keyspaces have been flushed": make sure every live keyspace has something to flush, so that a
+        // flush (and with it journal maintenance) really happens after the last state change
+        for ks in &kss {
+            if w.write_enabled(*ks) {
+                w.apply(&Op::Ins { ks: *ks, k: 2, v: 1 })?;
+            }
+        }
+        let mut guard = 0;
+        loop {
+            let mut progressed = false;
+            for ks in &kss {
+                let h = &w.ks[ks];
+                if h.tree.active_memtable().len() > 0 && h.tree.sealed_memtable_count() < 4 {
+                    w.apply(&Op::Rotate { ks: *ks })?;
+                    self.step_check(w)?;
+                    progressed = true;
+                }
+            }
+            let pend = w.pending();
+            if let Some(m) = pend.first() {
+                w.apply(&Op::Step { msg: m.clone(), jrot: false })?;
+                self.step_check(w)?;
+                progressed = true;
+            }
+            guard += 1;
+            if !progressed || guard > 200 {
+                break;
+            }
+        }
+        let on_disk = journal_files(&w.dir);
+        let count = w.dbi().journal_count();
+        if count != 1 || on_disk.len() != 1 {
+            return Err(Violation::new(
+                "journal.quiescence",
+                format!("after flushing every keyspace and draining the queue: journal_count()={count}, files={on_disk:?} (had {jbefore} before)"),
+            ));
+        }
+        digests.extend(w.check_all(self.probe)?);
+        digests.push(jbefore as u64);
+        Ok(digests)
     }
 }
 
